@@ -374,6 +374,32 @@ theorem addLink_initNum (db : DB) (b : Blk) : (db.addLink b).1.initNum = db.init
     · rfl
     · cases db.find b.id <;> rfl
 
+/-- the delivery of the inclusive starting block keeps the extra `nums` entry written by `InitLIB` -/
+theorem initial_step_initNum (cfg : Config) (s : FState) (b : Blk) (hplan : plan cfg s b = .initial s) :
+    (processBlock cfg s b none).1.db.initNum = s.db.initNum := by
+  unfold processBlock
+  rw [hplan]
+  simp only [processInitialInclusive, finish]
+  rw [initialAcc_eq]
+  simp only
+  split
+  · rw [show (initFirst cfg { s with db := (s.db.addLink b).1 } b none).st.db.initNum = s.db.initNum from by
+      unfold initFirst; split
+      · rw [phase_incl]; exact addLink_initNum s.db b
+      · exact addLink_initNum s.db b]
+  · rw [processIrr_db]
+    simp only [initSt]
+    split
+    · show ((initFirst cfg { s with db := (s.db.addLink b).1 } b none).st.db.markSent b.id).initNum = s.db.initNum
+      show (initFirst cfg { s with db := (s.db.addLink b).1 } b none).st.db.initNum = s.db.initNum
+      unfold initFirst; split
+      · rw [phase_incl]; exact addLink_initNum s.db b
+      · exact addLink_initNum s.db b
+    · show (initFirst cfg { s with db := (s.db.addLink b).1 } b none).st.db.initNum = s.db.initNum
+      unfold initFirst; split
+      · rw [phase_incl]; exact addLink_initNum s.db b
+      · exact addLink_initNum s.db b
+
 /-- the same for a forkable started on an **inclusive** LIB (the starting block itself is delivered when it arrives):
     until something is delivered the two forkables are in the same state, the delivery of the starting block does not
     involve the retention setting, and from the first delivery on `twin_history` applies -/
@@ -406,29 +432,7 @@ theorem twin_history_inclusive (cfg : Config) (k : Nat) (hnew : cfg.matches .new
         rw [hlib'] at hid' ⊢
         apply hi i n _ hid'
         -- the initial delivery keeps the extra `nums` entry
-        have : (processBlock cfg s b none).1.db.initNum = s.db.initNum := by
-          unfold processBlock
-          rw [hplan]
-          simp only [processInitialInclusive, finish]
-          rw [initialAcc_eq]
-          simp only
-          split
-          · rw [show (initFirst cfg { s with db := (s.db.addLink b).1 } b none).st.db.initNum = s.db.initNum from by
-              unfold initFirst; split
-              · rw [phase_incl]; exact addLink_initNum s.db b
-              · exact addLink_initNum s.db b]
-          · rw [processIrr_db]
-            simp only [initSt]
-            split
-            · show ((initFirst cfg { s with db := (s.db.addLink b).1 } b none).st.db.markSent b.id).initNum = s.db.initNum
-              show (initFirst cfg { s with db := (s.db.addLink b).1 } b none).st.db.initNum = s.db.initNum
-              unfold initFirst; split
-              · rw [phase_incl]; exact addLink_initNum s.db b
-              · exact addLink_initNum s.db b
-            · show (initFirst cfg { s with db := (s.db.addLink b).1 } b none).st.db.initNum = s.db.initNum
-              unfold initFirst; split
-              · rw [phase_incl]; exact addLink_initNum s.db b
-              · exact addLink_initNum s.db b
+        have := initial_step_initNum cfg s b hplan
         rw [← this]; exact hin'
       rw [hsame]
       congr 1
@@ -482,6 +486,101 @@ theorem outputs_independent_of_retention_inclusive (cfg : Config) (k : Nat) (r :
   rw [hinit] at hL₂ ⊢
   obtain ⟨hI, hJ, hincl, hls⟩ := Props.C01.init_inv_inclusive cfg r hr hroot U h1 h2
   exact twin_history_inclusive cfg k hnew hundo hirr U hU h [r.id] (init cfg) [] hI hJ (initNumOK_init cfg) hincl hls hin hL₁ hL₂
+
+/-! ### the inclusive starting LIB: invariants along a history, and the head is followed -/
+
+/-- what holds after any prefix of a history fed to a forkable started on an inclusive LIB: the invariants, and either
+    nothing has been delivered yet or something has -/
+def InclPhase (U : Id → Option Blk) (s : FState) : Prop :=
+  ∃ P F, Inv s P ∧ Inv2 U F s.db ∧ InitNumOK s.db ∧
+    ((s.includeInit = true ∧ s.lastSent = none) ∨ s.lastSent.isSome = true)
+
+theorem inclPhase_step (cfg : Config) (hnew : cfg.matches .new = true) (hundo : cfg.matches .undo = true)
+    (hirr : cfg.matches .irreversible = true) (U : Id → Option Blk) (hU : UOK U) (s : FState) (b : Blk)
+    (hph : InclPhase U s) (hbU : U b.id = some b) (hL : LibDeclOK s.db b) :
+    InclPhase U (processBlock cfg s b none).1 := by
+  obtain ⟨P, F, hI, hJ, hi, hphase⟩ := hph
+  have hb := hU.wf b.id b hbU
+  -- the ordinary step, whenever the block is not the awaited starting block
+  have ordinary : (s.includeInit = false ∨ s.lastSent.isSome = true ∨ b.id ≠ s.db.libRef.id) →
+      InclPhase U (processBlock cfg s b none).1 := by
+    intro hni
+    obtain ⟨P₁, F₁, _, hI₁, hJ₁, htip⟩ :=
+      Props.C01.step_discipline_consistent cfg hnew hundo hirr U hU F s P b hI hJ hbU hL hni
+    obtain ⟨_, _, _, _, _, hshape, _⟩ := processBlock_step cfg hnew hundo hirr s P b hI hni
+      (sentClosed_of_inv2 U F s.db hI.wf hI.heights hJ) hb (hb_of_inv2 U hU F s.db hJ b hbU) hL
+    refine ⟨P₁, F₁, hI₁, hJ₁, initNumOK_step cfg s b _ hshape hi, ?_⟩
+    rcases htip with ⟨_, hsame⟩ | hsome
+    · rcases hphase with ⟨h1, h2⟩ | h
+      · exact Or.inl ⟨by rw [processBlock_includeInit]; exact h1, by rw [hsame]; exact h2⟩
+      · exact Or.inr (by rw [hsame]; exact h)
+    · exact Or.inr hsome
+  rcases hphase with ⟨hincl, hls⟩ | hsome
+  · by_cases hid : b.id = s.db.libRef.id
+    · have hplan : plan cfg s b = .initial s := by
+        unfold plan
+        have h1 : (b.id == b.parent) = false := by simpa using hb.2.2
+        have h2 : (decide (b.num < s.db.libRef.num) && s.lastSent.isSome) = false := by simp [hls]
+        have h3 : (s.includeInit && s.lastSent.isNone && b.id == s.db.libRef.id) = true := by simp [hincl, hls, hid]
+        simp [h1, h2, h3]
+      obtain ⟨_, hlast', hlib', hI', hJ'⟩ := inclusive_root_step cfg hnew hirr U hU F s P b hI hJ hincl hls hbU hid
+      refine ⟨[], F, hI', hJ', ?_, Or.inr (by rw [hlast']; rfl)⟩
+      intro i n hin' hid'
+      rw [hlib'] at hid' ⊢
+      exact hi i n (by rw [← initial_step_initNum cfg s b hplan]; exact hin') hid'
+    · exact ordinary (Or.inr (Or.inr hid))
+  · exact ordinary (Or.inr (Or.inl hsome))
+
+theorem inclPhase_history (cfg : Config) (hnew : cfg.matches .new = true) (hundo : cfg.matches .undo = true)
+    (hirr : cfg.matches .irreversible = true) (U : Id → Option Blk) (hU : UOK U) (h : List Blk) (s : FState)
+    (hph : InclPhase U s) (hin : ∀ b ∈ h, U b.id = some b) (hL : Props.C01.LibHistOK cfg s h) :
+    InclPhase U (runHistory cfg s h).1 := by
+  induction h generalizing s with
+  | nil => exact hph
+  | cons b r ih =>
+    rw [Props.C01.runHistory_cons]
+    exact ih _ (inclPhase_step cfg hnew hundo hirr U hU s b hph (hin b (by simp)) hL.1)
+      (fun x hx => hin x (by simp [hx])) hL.2
+
+/-- **the head and the declared finality are followed, inclusive starting LIB** (hypotheses on the input only): after any
+    prefix of a history fed to a forkable started on an inclusive LIB `r`, a block that is new to the stream, not below
+    the LIB, is not the awaited starting block itself, rests on a path of received blocks resting on the LIB and
+    triggers becomes the tip; and the LIB moves to the block of that path carrying the LIB number it declares -/
+theorem history_head_and_lib_follow_inclusive (cfg : Config) (r : Ref) (hr : r.id ≠ "")
+    (hroot : cfg.root = some (.inclusive r)) (hnew : cfg.matches .new = true) (hundo : cfg.matches .undo = true)
+    (hirr : cfg.matches .irreversible = true) (U : Id → Option Blk) (hU : UOK U)
+    (h1 : ∀ b, U b.id = some b → b.parent = r.id → r.num < b.num)
+    (h2 : ∀ b, U b.id = some b → b.id = r.id → b.num = r.num)
+    (pre : List Blk) (b : Blk) (hin : ∀ x ∈ pre ++ [b], U x.id = some x)
+    (hL : Props.C01.LibHistOK cfg (init cfg) (pre ++ [b]))
+    (hnotroot : b.id ≠ (runHistory cfg (init cfg) pre).1.db.libRef.id ∨ (runHistory cfg (init cfg) pre).1.lastSent.isSome = true)
+    (hfresh : (runHistory cfg (init cfg) pre).1.db.find b.id = none)
+    (hnb : ¬ (b.num < (runHistory cfg (init cfg) pre).1.db.libRef.num ∧ (runHistory cfg (init cfg) pre).1.lastSent.isSome = true))
+    (ids : List Id) (hp : IsPath (runHistory cfg (init cfg) pre).1.db (runHistory cfg (init cfg) pre).1.db.libRef.id ids)
+    (hn : (runHistory cfg (init cfg) pre).1.db.libRef.id ∉ ids)
+    (hpar : b.parent = topOf (runHistory cfg (init cfg) pre).1.db.libRef.id ids)
+    (htr : triggers cfg (runHistory cfg (init cfg) pre).1 b = true) :
+    (∃ l, (runHistory cfg (init cfg) (pre ++ [b])).1.lastSent = some l ∧ l.ref = b.ref) ∧
+    (∀ x ex, x ∈ ids → (runHistory cfg (init cfg) pre).1.db.find x = some ex → ex.blk.num = b.lib →
+      (runHistory cfg (init cfg) (pre ++ [b])).1.db.libRef = ⟨x, b.lib⟩) := by
+  obtain ⟨hI0, hJ0, hincl0, hls0⟩ := Props.C01.init_inv_inclusive cfg r hr hroot U h1 h2
+  obtain ⟨hLpre, hLb⟩ := libHistOK_append cfg (init cfg) pre b hL
+  obtain ⟨P1, F1, hI1, hJ1, hi1, hphase⟩ := inclPhase_history cfg hnew hundo hirr U hU pre (init cfg)
+    ⟨[], [r.id], hI0, hJ0, initNumOK_init cfg, Or.inl ⟨hincl0, hls0⟩⟩ (fun x hx => hin x (by simp [hx])) hLpre
+  have hbU := hin b (by simp)
+  have hni : (runHistory cfg (init cfg) pre).1.includeInit = false ∨ (runHistory cfg (init cfg) pre).1.lastSent.isSome = true ∨
+      b.id ≠ (runHistory cfg (init cfg) pre).1.db.libRef.id := by
+    rcases hnotroot with h | h
+    · exact Or.inr (Or.inr h)
+    · exact Or.inr (Or.inl h)
+  have hok : Props.C01.StepOK (runHistory cfg (init cfg) pre).1 b :=
+    ⟨hni, sentClosed_of_inv2 U F1 _ hI1.wf hI1.heights hJ1, hU.wf b.id b hbU, hb_of_inv2 U hU F1 _ hJ1 b hbU, hLb⟩
+  have := linked_block_step cfg hnew hundo hirr _ P1 b hI1 hok hi1 hfresh hnb ids hp hn hpar htr
+  have hsplit : (runHistory cfg (init cfg) (pre ++ [b])).1 = (processBlock cfg (runHistory cfg (init cfg) pre).1 b none).1 := by
+    unfold runHistory
+    rw [List.foldl_append]
+    rfl
+  rw [hsplit]; exact this
 
 /-! ### outputs do not depend on re-fed or below-LIB blocks -/
 
